@@ -123,6 +123,11 @@ pub fn line_eq(l: &Line, m: &MLine) -> bool {
 pub struct Saved {
     pub col: usize,
     pub row: usize,
+    /// the position as it was saved, never clamped (convention U9: whether a saved position is
+    /// clamped when the screen shrinks - as the pinned tree does - or only when it is restored is not
+    /// promised; C17 only says the restored position lies inside the screen)
+    pub xcol: usize,
+    pub xrow: usize,
     pub pen: MPen,
     pub origin: bool,
     pub autowrap: bool,
@@ -130,7 +135,7 @@ pub struct Saved {
 
 impl Default for Saved {
     fn default() -> Self {
-        Saved { col: 0, row: 0, pen: MPen::default(), origin: false, autowrap: true }
+        Saved { col: 0, row: 0, xcol: 0, xrow: 0, pen: MPen::default(), origin: false, autowrap: true }
     }
 }
 
@@ -152,6 +157,8 @@ pub enum ConvPoint {
     U3 { row: usize, mark: bool },
     /// U4: EL 1 / ED 1 with the cursor in the last column erases the whole row (mark kept / cleared)
     U4 { row: usize },
+    /// U9: restore after the screen shrank and grew again (position clamped at the shrink / only now)
+    U9 { col: usize, row: usize },
 }
 
 /// What the last executed function did (for evidence keys and minimum-event gates).
@@ -405,6 +412,8 @@ impl Model {
         self.saved = Saved {
             col: self.col.min(self.cols - 1),
             row: self.row,
+            xcol: self.col.min(self.cols - 1),
+            xrow: self.row,
             pen: self.pen,
             origin: self.origin,
             autowrap: self.autowrap,
@@ -418,6 +427,10 @@ impl Model {
         self.pen = s.pen;
         self.origin = s.origin;
         self.autowrap = s.autowrap;
+        let lazy = (s.xcol.min(self.cols - 1), s.xrow.min(self.rows - 1));
+        if lazy != (s.col.min(self.cols - 1), s.row.min(self.rows - 1)) {
+            self.eff.conv = Some(ConvPoint::U9 { col: lazy.0, row: lazy.1 });
+        }
     }
 
     fn clamp_saved(&mut self) {
@@ -833,6 +846,10 @@ impl Model {
             }
             ConvPoint::U3 { row, mark } => self.view[row].wrapped = mark,
             ConvPoint::U4 { row } => self.view[row].wrapped = false,
+            ConvPoint::U9 { col, row } => {
+                self.col = col;
+                self.row = row;
+            }
         }
     }
 }
